@@ -62,7 +62,7 @@ var c5ClashRefs = []string{
 }
 
 func genC05(t *rapid.T) c5Case {
-	o := modOpts{gens: []string{"zzz"}, minPkgs: 2, maxPkgs: 5, locals: false, tagDensity: 9, pkgTagBias: 9, maxDecls: 3, imports: true}
+	o := modOpts{gens: []string{"zzz"}, minPkgs: 2, maxPkgs: 5, locals: false, tagDensity: 9, pkgTagBias: 9, maxDecls: 3, imports: true, std: true}
 	c := c5Case{ModCase: genMod(t, o)}
 	names := rapid.SampledFrom([][]string{{"g"}, {"g", "gen"}, {"deep", "a"}, {"x1"}, {"doc", "ab"}}).Draw(t, "gens")
 	for _, n := range names {
